@@ -1,5 +1,6 @@
 import BeyondVerif.Model.DateCfg
 import BeyondVerif.Model.CcsdsDate
+import BeyondVerif.Model.DateIter
 import BeyondVerif.Generated.CcsdsDates
 import BeyondVerif.Drv.C03
 import BeyondVerif.Drv.Util
@@ -28,13 +29,15 @@ def showDate (x : Date) : String := (C03.showDate x).drop 3 |>.toString
 def errS (e : Err) : String := "err " ++ C03.errStr e
 
 /-- one step of a history: `a<µs>` = `+ timedelta`, `s<µs>` = `- timedelta`, `c<SCALE>` = `change_scale`,
-`n` = `Date(date)` (copy constructor: `d`, `s`, `scale` of the argument through `__init__`) -/
+`n` = `Date(date)` (copy constructor: `d`, `s`, `scale` of the argument through `__init__`),
+`p` = a copy that does not go through `__init__` (pickle, deepcopy): the same slots -/
 def step (env : Env) (x : Date) (op : String) : Option (Except Err Date) :=
   match op.toList with
   | 'a' :: r => (iOfStr? (String.ofList r)).map (fun t => add cfg env x t)
   | 's' :: r => (iOfStr? (String.ofList r)).map (fun t => subTd cfg env x t)
   | 'c' :: r => (C03.scaleOf? (String.ofList r)).map (fun sc => changeScale cfg env x sc)
   | ['n'] => some (let ds := x.toScale; mk cfg env x.scale ds.1 ds.2)
+  | ['p'] => some (.ok x)
   | _ => none
 
 /-- a history from a start date: the date after every step -/
@@ -45,18 +48,6 @@ def chain (env : Env) (x : Date) : List String → List String → Option (List 
     | none => none
     | some (.error e) => some ((errS e) :: acc).reverse
     | some (.ok y) => chain env y ops (showDate y :: acc)
-
-/-- `DateRange.__iter__` on full dates: `while date ⋈ stop: yield date; date += step` with the comparison on `_datetime` -/
-def rangeIter (env : Env) (stop : Date) (stepUs : Int) (incl : Bool) : Nat → Date → List Date → Except Err (List Date)
-  | 0, _, _ => .error .fuel
-  | fuel + 1, cur, acc =>
-    let go : Bool :=
-      if stepUs > 0 then (if incl then cur.le stop else cur.lt stop) else (if incl then cur.ge stop else cur.gt stop)
-    if go then
-      match add cfg env cur stepUs with
-      | .error e => .error e
-      | .ok nxt => rangeIter env stop stepUs incl fuel nxt (cur :: acc)
-    else .ok acc.reverse
 
 def strOfCodes? (s : String) : Option String :=
   if s = "-" then some "" else
@@ -100,7 +91,7 @@ def handle : List String → Option String
         match Range.make x.datetimeRef stop.datetimeRef st (incl == "1") with
         | .error er => return errS er
         | .ok _ =>
-          match rangeIter env stop st (incl == "1") 5000 x [] with
+          match rangeIter cfg env stop st (incl == "1") 5000 x with
           | .error er => return errS er
           | .ok l => return joinWith " | " ("ok" :: l.map showDate)
   -- c04.pd env scale codes : parse_date(string, scale); codes = the text as comma-separated code points
